@@ -148,6 +148,24 @@ def check_dt(acc, pendulum, z, f, kw, durations=True, fold=1):
         acc.mismatch("minus-Duration", "three-spellings-disagree", case, vals, "all equal")
     elif exp is not None and vals["minus-Duration"] is not None and vals["minus-Duration"] != exp:
         acc.mismatch("minus-Duration", "value", case, vals["minus-Duration"], exp)
+    # an Interval as operand (its components are a calendar decomposition): on ANY receiver, + and - are add()/subtract()
+    # with those components
+    for p0 in INTERVAL_BASES:
+        try:
+            base = pendulum.DateTime(*p0, tzinfo=pendulum.UTC)
+            iv = base.add(**kw) - base
+            ic = {"years": iv.years, "months": iv.months, "weeks": iv.weeks, "days": iv.remaining_days, "hours": iv.hours,
+                  "minutes": iv.minutes, "seconds": iv.remaining_seconds, "microseconds": iv.microseconds}
+        except (ValueError, OverflowError):
+            continue
+        for name, fn, ref in (("plus-Interval", lambda: x + iv, lambda: x.add(**ic)), ("minus-Interval", lambda: x - iv, lambda: x.subtract(**ic)),
+                              ("Interval-plus-dt", lambda: iv + x, lambda: x.add(**ic))):
+            g, w = _try(fn), _try(ref)
+            acc.c["evaluations"] += 1
+            acc.c["transitions"] += 1
+            if (None if g is None else _obs(g)) != (None if w is None else _obs(w)):
+                acc.mismatch(name, "vs-add-components", dict(case, interval_base=list(p0)), None if g is None else _obs(g),
+                             None if w is None else _obs(w))
     # reflected operand order, and Durations with the same components obtained by arithmetic instead of from the
     # constructor (their raw constructor arguments differ from d's; their components do not)
     r = _try(lambda: d + x)
@@ -173,6 +191,9 @@ def _no_ym(d):
     if d.years or d.months:
         raise ValueError("not component-preserving")
     return d
+
+
+INTERVAL_BASES = ((2020, 12, 1, 0, 0, 0, 0), (2021, 1, 31, 22, 0, 0, 5))
 
 
 DERIVED = (("times-one", lambda p, d: d * 1), ("plus-zero", lambda p, d: _no_ym(d) + p.Duration()),
